@@ -81,6 +81,11 @@ def plan(tier, big=None):
         for n in range(0, smax + 1):
             out.append((shape, "str", n, "default"))
     out.append(("single", "str", smax + 1, "default"))
+    # a quantity whose value is a string (PVL/ISIS write it, ODL/PDS3 refuse), also where the line breaks before the units
+    for n in range(0, smax + 1):
+        out.append(("quant", "str", n, "default"))
+    out.append(("quant", "str", 1, "symtiny"))
+    out.append(("quant", "str", 2, "symtiny"))
     for shape in ("single", "seq", "set", "quant", "quantbad", "group"):
         out.append((shape, "int", 3 if quick else 6, "default"))
         out.append((shape, "float", 4 if quick else 6, "default"))
